@@ -67,7 +67,7 @@ LEAVES = [
     ('lnum', False), ('lint', False), ('tnum', False), ('lempty', False), ('larr', False),
     ('llist', False), ('lbool', True), ('tarr', False),
     ('ls', False), ('ls1', False), ('ls0', False), ('ls64', False), ('ls65', False),
-    ('lsU', False), ('ts', False), ('lsmix65', False),
+    ('lsU', False), ('ts', False), ('lsmix65', False), ('lsU65', False), ('lsUmix', False), ('strU65', False),
     ('dict0', False), ('dict2', False),
     # declared may-refuse letters (DESIGN: probed, the writer raises)
     ('npf32', True), ('npbool', True), ('none', True), ('lmix', True), ('lrag', True),
@@ -76,7 +76,7 @@ LEAVES = [
 LEAF_NAMES = [l for l, _ in LEAVES]
 MAY_REFUSE = dict(LEAVES)
 CORE_LEAVES = ['float', 'int', 'true', 'str', 'str65', 'strU', 'a1', 'a2', 'ai1', 'lnum', 'larr',
-               'ls', 'ls65', 'lsU', 'dict2', 'tnum']
+               'ls', 'ls65', 'lsU', 'lsU65', 'lsUmix', 'dict2', 'tnum']
 KEYS = ['k', 'k0', 'a b', u'kµ', 'K.1', ' k ']
 
 
@@ -169,6 +169,12 @@ def make_leaf(letter, salt):
         return [S65]
     if letter == 'lsU':
         return [NONASCII, 'x']
+    if letter == 'lsU65':       # non-ascii AND longer than 64 bytes in utf-8 (40 characters, 80 bytes)
+        return [u'\u00b5' * 40]
+    if letter == 'lsUmix':      # 62 characters / 66 utf-8 bytes next to shorter entries
+        return ['x' * 58 + u'\u00c5\u00b5\u00e9\u00f1', 'ab', u'\u00b5m']
+    if letter == 'strU65':
+        return u'\u00b5' * 40
     if letter == 'ts':
         return ('H2', 'He')
     if letter == 'lsmix65':
@@ -209,7 +215,8 @@ def build_tree(spec, letters, path=''):
 
 
 # violation signatures name the *class* of the leaf, so one defect has one signature
-SIGCLASS = {'ls65': 'strlist-over-64-chars', 'lsmix65': 'strlist-over-64-chars', 'lsU': 'strlist-non-ascii'}
+SIGCLASS = {'ls65': 'strlist-over-64-chars', 'lsmix65': 'strlist-over-64-chars', 'lsU': 'strlist-non-ascii',
+            'lsU65': 'strlist-non-ascii-over-64-bytes', 'lsUmix': 'strlist-non-ascii-over-64-bytes'}
 
 
 def letter_of(path, letters):
